@@ -111,6 +111,24 @@ def gen_expr(rng, ctx, srname, params, depth, budget, top=False):
             return ("neg", a), fa
         b, fb = gen_expr(rng, ctx, srname, params, depth - 1, budget)
         return ("minus", a, b), fa | fb
+    if rng.random() < 0.04:
+        # a product with a REPEATED identical compound factor (cons-hashing makes the copies one object): squares and
+        # cubes of (f ⊕ g), with or without further factors, the copies in every position; binder-free inside the
+        # repeated factor (so the region of KF-shared-binder-unfold is not touched)
+        budget[0] -= 2
+        la, fa = gen_leaf(rng, ctx, srname, params)
+        lb, fb_ = gen_leaf(rng, ctx, srname, params)
+        if params and rng.random() < 0.4:
+            la = ("prod", (la, ("param", rng.choice(params))))
+        base = ("plus", (la, lb))
+        free = set(fa) | set(fb_)
+        factors = [base] * rng.choice([2, 2, 2, 3])
+        for _ in range(rng.choice([0, 0, 1, 1, 2])):
+            budget[0] -= 1
+            h, fh = gen_leaf(rng, ctx, srname, params)
+            factors.insert(rng.randrange(len(factors) + 1), h)
+            free |= fh
+        return ("prod", tuple(factors)), free
     c = rng.random()
     if c < 0.34:      # product
         k = rng.choice([2, 2, 3, 3, 4])
@@ -269,6 +287,34 @@ def subs_nodes(r, acc=None):
         subs_nodes(r[1], acc)
         subs_nodes(r[2], acc)
     return acc
+
+
+def has_repeated_factor(r):
+    """some product has the same compound (non-leaf) sub-recipe twice among its direct factors"""
+    if r[0] == "prod":
+        comp = [repr(describe_recipe(p)) for p in r[1] if p[0] not in ("leaf", "num", "param")]
+        if len(comp) != len(set(comp)):
+            return True
+    kids = []
+    if r[0] in ("prod", "plus"):
+        kids = r[1]
+    elif r[0] == "sum":
+        kids = [r[3]]
+    elif r[0] == "contraction":
+        kids = r[2]
+    elif r[0] in ("subs", "neg"):
+        kids = [r[1]]
+    elif r[0] == "minus":
+        kids = [r[1], r[2]]
+    return any(has_repeated_factor(k) for k in kids)
+
+
+def describe_recipe(x):
+    if isinstance(x, np.ndarray):
+        return x.tolist()
+    if isinstance(x, tuple):
+        return [describe_recipe(y) for y in x]
+    return x
 
 
 def fold(op, xs):
@@ -828,6 +874,8 @@ def check_cases(ctx, cases, label="clean"):
                 ctx.count("subs:value-is-another-key(swap/chain)")
             if any(v[0] == "idx" for _, v in sub):
                 ctx.count("subs:index-tensor")
+        if has_repeated_factor(case["recipe"]):
+            ctx.count("product:repeated-compound-factor")
         try:
             spec = model_values(answers[job["spec_req"]])
         except RuntimeError as e:
